@@ -501,13 +501,28 @@ func (ev *evaluator) eval1(n *Node, cur V, env *Env) (V, *Fault) {
 		if !ok {
 			return nil, fault(CatUndefVar, "undefined variable %s", n.Name)
 		}
+		if _, dup := v.(dupBinding); dup {
+			return nil, unspec("variable %s is bound more than once in one let", n.Name)
+		}
 		return v, nil
 	case NLet:
 		vars := map[string]V{}
 		var ff *Fault
 		nb := len(n.Keys)
+		count := map[string]int{}
+		for i := 0; i < nb; i++ {
+			count[n.Keys[i]]++
+		}
 		for i := 0; i < nb; i++ {
 			v, f := ev.eval(n.Kids[i], cur, env)
+			if count[n.Keys[i]] > 1 {
+				// bound more than once: which binding survives - and so whether this
+				// expression is evaluated at all - is not pinned
+				if f != nil {
+					f = unspec("a binding of %s, which is bound more than once, fails", n.Keys[i])
+				}
+				v = dupBinding{}
+			}
 			ff = merge(ff, f)
 			vars[n.Keys[i]] = v
 		}
@@ -522,6 +537,9 @@ func (ev *evaluator) eval1(n *Node, cur V, env *Env) (V, *Fault) {
 	}
 	return nil, unspec("unhandled node kind %d", n.Kind)
 }
+
+// dupBinding marks a variable that one let binds more than once.
+type dupBinding struct{}
 
 func (ev *evaluator) project(elems []V, unordered bool, rhs, cond *Node, env *Env) (V, *Fault) {
 	r := &Arr{E: []V{}}
